@@ -103,6 +103,11 @@ func treeHashes(root string) map[string]string {
 			out[rel] = "dir"
 			return nil
 		}
+		if d.Type()&fs.ModeSymlink != 0 {
+			t, _ := os.Readlink(p)
+			out[rel] = "symlink->" + t
+			return nil
+		}
 		b, err := os.ReadFile(p)
 		if err != nil {
 			out[rel] = "unreadable"
